@@ -727,9 +727,6 @@ func openCoroutine(in *Interp) {
 		if !ok {
 			in.argError(1, fname, "function expected")
 		}
-		if fn.Builtin != nil {
-			in.indet("coroutine over a host function")
-		}
 		c := &Coroutine{fn: fn, Status: "suspended", resumeCh: make(chan []Value), yieldCh: make(chan coMsg)}
 		in.coros = append(in.coros, c)
 		return c
